@@ -119,7 +119,9 @@ def run(run):
         if c is not None and c["args"]:
             cases.append(c)
             nrand -= 1
-    res = lib.run_impl("c14", [{"args": c["args"]} for c in cases], shards=lib.NCPU)
+    for k, c in enumerate(cases):
+        c["in_body"] = k % 3 == 0
+    res = lib.run_impl("c14", [{"args": c["args"], "in_body": c["in_body"]} for c in cases], shards=lib.NCPU)
     coq_cases, idx = [], []
     for i, (c, r) in enumerate(zip(cases, res)):
         named = sum(1 for a in c["args"] if "=" in a)
@@ -141,6 +143,14 @@ def run(run):
                 numeric_before_pos = any(isinstance(k, int) and "=" in a for (k, _), a in zip(c["expect"], c["args"]))
                 run.property_failure("view-differs:%s:%s" % (which, "numeric-named" if numeric_before_pos else "plain"),
                                      "%s view %r differs from the call's arguments %r" % (which, got, want), c["args"])
+        if c.get("in_body"):
+            # the views of the same call written in the body of another template
+            for which in ("body_expander", "body_lua"):
+                got = norm(r.get(which))
+                if got != want:
+                    run.property_failure("view-differs:%s" % which.replace("_", "-"),
+                                         "%s view %r of the call inside a template body differs from the call's arguments %r"
+                                         % (which, got, want), c["args"])
         if r["stack"] != ["Tt"]:
             run.correspondence_break("expand_stack not restored", c["args"], stack=r["stack"])
         if None in (r["parser"], r["expander"], r["lua"]):
